@@ -140,6 +140,10 @@ func runC12(c *Ctx, idx int, o *Obs) {
 	minSteps := -1
 	for _, al := range acrAlgos {
 		t := mustParse(text)
+		if r.Intn(2) == 0 {
+			t = usedObject(r, text) // an object with a past: indexed under another tip name, then renamed
+			o.Ev("used_object", 1)
+		}
 		m, steps, err := acr.ParsimonyAcr(t, states, al.id, false)
 		o.Ev("acr:"+al.name, 1)
 		if !o.Check(err == nil, "acr_error", al.name+": "+fmt.Sprint(err), inp) {
@@ -393,6 +397,10 @@ func c12ASR(c *Ctx, r *rand.Rand, idx int, o *Obs, text string, tips []string) {
 	}
 	for _, al := range acrAlgos {
 		t := mustParse(text)
+		if r.Intn(2) == 0 {
+			t = usedObject(r, text) // an object with a past: indexed under another tip name, then renamed
+			o.Ev("used_object", 1)
+		}
 		t.ClearComments()
 		steps, err := asr.ParsimonyAsr(t, mkAlign(), al.id, false)
 		o.Ev("asr:"+al.name, 1)
